@@ -383,18 +383,26 @@ func (c *c10ctx) builders() {
 		words  []int
 		nvalid int
 	}
+	// every second builder works over another alphabet than the case's (another spelling of the four letters)
+	alphas := make([]c10alpha, builders)
+	for g := range alphas {
+		alphas[g] = c.a
+		if g%2 == 1 {
+			alphas[g] = c10Alphas[rng.Intn(len(c10Alphas))]
+		}
+	}
 	jobs := make([][]job, builders)
 	for g := range jobs {
 		for j := 0; j < rounds; j++ {
 			var s []byte
-			if rng.Intn(2) == 0 {
+			if rng.Intn(2) == 0 && alphas[g].name == c.a.name {
 				s = c10Near(rng, c.a, c.s, k, 250)
 				s = append(s, c10Fresh(rng, c.a, 1+rng.Intn(10), 30)...)
 			} else {
-				s = c10Fresh(rng, c.a, k+1+rng.Intn(250), 30)
+				s = c10Fresh(rng, alphas[g], k+1+rng.Intn(250), 30)
 			}
 			jb := job{s: s}
-			jb.refPos, jb.nvalid = c10RefPos(c10Ref(c.a, s, k))
+			jb.refPos, jb.nvalid = c10RefPos(c10Ref(alphas[g], s, k))
 			for wd := range jb.refPos {
 				jb.words = append(jb.words, wd)
 			}
@@ -423,7 +431,8 @@ func (c *c10ctx) builders() {
 			<-start
 			for j, jb := range jobs[g] {
 				at = fmt.Sprintf("round %d, sequence %.40q", j, jb.s)
-				sq := linear.NewSeq("own", alphabet.BytesToLetters(append([]byte(nil), jb.s...)), c.a.a)
+				al := alphas[g]
+				sq := linear.NewSeq("own", alphabet.BytesToLetters(append([]byte(nil), jb.s...)), al.a)
 				ki, err := kmerindex.New(k, sq)
 				if err != nil {
 					bads[g] = &bad{at + ": New", err.Error(), nil}
@@ -436,7 +445,17 @@ func (c *c10ctx) builders() {
 				}
 				for _, wd := range jb.words {
 					if f[kmerindex.Kmer(wd)] != len(jb.refPos[wd]) {
-						bads[g] = &bad{at + ": frequency of " + c10Text(c.a, wd, k), f[kmerindex.Kmer(wd)], len(jb.refPos[wd])}
+						bads[g] = &bad{at + ": frequency of " + c10Text(al, wd, k), f[kmerindex.Kmer(wd)], len(jb.refPos[wd])}
+						return
+					}
+					// the words spelt out, by the index and by the package-level helper
+					text := c10Text(al, wd, k)
+					if got := ki.Format(kmerindex.Kmer(wd)); got != text {
+						bads[g] = &bad{at + ": Format over " + al.name, got, text}
+						return
+					}
+					if got, err := kmerindex.Format(kmerindex.Kmer(wd), k, al.a); err != nil || got != text {
+						bads[g] = &bad{at + ": package Format over " + al.name, fmt.Sprint(got, err), text}
 						return
 					}
 				}
@@ -445,7 +464,7 @@ func (c *c10ctx) builders() {
 					for _, wd := range jb.words {
 						got, err := ki.KmerPositions(kmerindex.Kmer(wd))
 						if err != nil || !c10SameInts(got, jb.refPos[wd]) {
-							bads[g] = &bad{at + ": KmerPositions(" + c10Text(c.a, wd, k) + ")", fmt.Sprint(got, err), jb.refPos[wd]}
+							bads[g] = &bad{at + ": KmerPositions(" + c10Text(al, wd, k) + ")", fmt.Sprint(got, err), jb.refPos[wd]}
 							return
 						}
 					}
